@@ -701,6 +701,9 @@ impl Driver {
                 for (mr, ms) in grid {
                     runs.push(run(ctx.with("rep", true).thresholds(mr, ms), &tcs));
                 }
+                // thresholds WITHOUT the conversion: they must have no effect (no counted repetition unless requested)
+                runs.push(run(ctx.thresholds(rng.gen_range(2..=4), 1), &tcs));
+                runs.push(run(ctx.thresholds(rng.gen_range(1..=3), rng.gen_range(2..=3)), &tcs));
                 // repeat the second build after all the others (no state may leak between builds)
                 let again = RunPlan { cfg: runs[1].cfg.clone(), input: runs[1].input.clone(), schedule: None };
                 runs.push(again);
